@@ -178,6 +178,24 @@ theorem admitted_requests_bounded {size ops s evs} {b : Int} (hsz : 0 ≤ size) 
   have := sumHeld_ge_length_mul hb
   omega
 
+/-- **a failed acquire releases nothing.**  `hctx.reqTaken` is assigned only after `acquireRequestSema` succeeded, so
+the handler context of a request whose `Acquire` failed (its connection was closed while it waited for memory, or it
+could never fit) holds 0 bytes: releasing it (`releaseRequestBuf(hctx.reqTaken)`) is not a semaphore operation at
+all.  In the model the memory a request holds is its entry in `held`; a request without one releases nothing.
+Together with `reqmem_within_limit` — which ranges over *all* histories, including acquisitions that are
+cancelled while queued and the release of their contexts — this is `Σ reqTaken over live hctx = cur ≤ limit`. -/
+theorem failed_acquire_releases_nothing {s : Sem} {id : Nat} (h : heldAmount id s.held = none) :
+    s.step (.release id) = (s, []) := by
+  simp [Sem.step, h]
+
+/-- a queued request that leaves on cancellation was never accounted: the step adds nothing for it to `held`, and
+whatever the counter gains is exactly what `notifyWaiters` admitted from the queue behind it -/
+theorem cancelled_waiter_never_accounted {size ops s evs} (hsz : 0 ≤ size) (h : SReach size ops s evs) (id : Nat) :
+    (s.step (.cancel id)).1.cur = sumHeld (s.step (.cancel id)).1.held ∧ (s.step (.cancel id)).1.cur ≤ size := by
+  have h' : SReach size (ops ++ [.cancel id]) (s.step (.cancel id)).1 (evs ++ (s.step (.cancel id)).2) := .snoc h rfl
+  obtain ⟨a, -, c, -⟩ := reqmem_within_limit hsz h'
+  exact ⟨a, c⟩
+
 /-- a request is admitted (fast path) only if it fits under the limit together with everything accounted,
 and only if nobody is queued before it -/
 theorem admitted_only_if_fits {s : Sem} {id : Nat} {n : Int} :
